@@ -76,6 +76,7 @@ type Enc struct {
 	obls     []*Obl
 	fresh    int
 	epochCtr int
+	epochs   map[int]epochInfo
 	frameCtr int
 
 	assumptions map[string]bool // evidence: things assumed (external contracts, havocs, …)
@@ -92,7 +93,7 @@ func newEnc(p *Program, unit *Contract, fn *ssa.Function) *Enc {
 		declared: map[string]bool{}, comps: map[string]string{},
 		structs: map[string]*structInfo{}, tags: map[string]int{}, tagTypes: map[int]types.Type{},
 		impls: map[string]string{}, implTypes: map[string]types.Type{}, boxes: map[string]string{}, boxZero: map[string]string{},
-		ufSeen: map[string]bool{}, assumptions: map[string]bool{}, callOrd: map[string]int{}, safetyOrd: map[string]int{},
+		ufSeen: map[string]bool{}, epochs: map[int]epochInfo{}, assumptions: map[string]bool{}, callOrd: map[string]int{}, safetyOrd: map[string]int{},
 	}
 	if e.mode == "" {
 		e.mode = "int"
@@ -159,9 +160,47 @@ func (e *Enc) comp(st *State, name, sort string) string {
 	if t, ok := st.h[name]; ok {
 		return t
 	}
-	n := e.declare(fmt.Sprintf("|%s@e%d|", name, st.epoch), e.comps[name])
+	// a component first touched in this state: it still has the value of the nearest epoch whose
+	// havoc could have changed it
+	ep := st.epoch
+	for {
+		info, ok := e.epochs[ep]
+		if !ok || info.prefixes == nil || matchPrefix(name, info.prefixes) {
+			break
+		}
+		ep = info.parent
+	}
+	n := e.declare(fmt.Sprintf("|%s@e%d|", name, ep), e.comps[name])
 	st.h[name] = n
 	return n
+}
+
+type epochInfo struct {
+	parent   int
+	prefixes []string // nil: everything was havocked
+}
+
+func matchPrefix(name string, prefixes []string) bool {
+	for _, p := range prefixes {
+		if strings.HasPrefix(name, p) {
+			return true
+		}
+	}
+	return false
+}
+
+// havocMatching havocs every component whose name starts with one of the prefixes (coarse frames).
+func (e *Enc) havocMatching(st *State, prefixes []string) {
+	e.epochCtr++
+	e.epochs[e.epochCtr] = epochInfo{parent: st.epoch, prefixes: prefixes}
+	st.epoch = e.epochCtr
+	nh := map[string]string{}
+	for k, v := range st.h {
+		if !matchPrefix(k, prefixes) {
+			nh[k] = v
+		}
+	}
+	st.h = nh
 }
 
 func (e *Enc) setComp(st *State, name, term string) {
@@ -198,6 +237,51 @@ func (e *Enc) mergeStates(conds []string, states []*State) *State {
 	} else {
 		e.epochCtr++
 		res.epoch = e.epochCtr
+		// if every branch descends from a common ancestor through coarse (prefix) havocs only, the merge
+		// is itself a prefix havoc of that ancestor
+		lineage := func(ep int) []int {
+			l := []int{ep}
+			for {
+				info, ok := e.epochs[ep]
+				if !ok || info.prefixes == nil {
+					return l
+				}
+				ep = info.parent
+				l = append(l, ep)
+			}
+		}
+		first := lineage(states[0].epoch)
+		anc := -1
+		for _, cand := range first {
+			ok := true
+			for _, s := range states[1:] {
+				found := false
+				for _, x := range lineage(s.epoch) {
+					if x == cand {
+						found = true
+					}
+				}
+				if !found {
+					ok = false
+				}
+			}
+			if ok {
+				anc = cand
+				break
+			}
+		}
+		if anc >= 0 {
+			var union []string
+			for _, s := range states {
+				for _, x := range lineage(s.epoch) {
+					if x == anc {
+						break
+					}
+					union = append(union, e.epochs[x].prefixes...)
+				}
+			}
+			e.epochs[res.epoch] = epochInfo{parent: anc, prefixes: union}
+		}
 	}
 	keys := map[string]bool{}
 	if sameEpoch {
@@ -426,7 +510,8 @@ func (e *Enc) storeStructRef(st *State, ref string, structType types.Type, sub [
 }
 
 func elemCompName(e *Enc, elem types.Type) string {
-	return "E_" + sortKey(e.sortOf(elem))
+	// one element store per Go element type: arrays of different element types never alias
+	return "E_" + shortTypeName(elem)
 }
 
 func cellCompName(e *Enc, t types.Type) string {
@@ -471,7 +556,12 @@ func (e *Enc) typeFact(v string, t types.Type, st *State) string {
 		return fmt.Sprintf("(and (<= 0 (s_off %s)) (<= 0 (s_len %s)) (<= (s_len %s) (s_cap %s)) (<= (+ (s_off %s) (s_cap %s)) 4611686018427387904) (<= 0 (s_arr %s)) (<= (s_arr %s) %s) (=> (= (s_arr %s) 0) (= (s_cap %s) 0)))",
 			v, v, v, v, v, v, v, v, st.alloc, v, v)
 	case *types.Interface:
-		return fmt.Sprintf("(and (<= 0 (i_tag %s)) (=> (= (i_tag %s) 0) (= (i_ref %s) 0)) (<= 0 (i_ref %s)) (<= (i_ref %s) %s))", v, v, v, v, v, st.alloc)
+		impl := "true"
+		if _, named := t.(*types.Named); named && u.NumMethods() > 0 {
+			// static typing: a non-nil value of interface type I has a dynamic type implementing I
+			impl = fmt.Sprintf("(or (= (i_tag %s) 0) (%s (i_tag %s)))", v, e.implFn(t), v)
+		}
+		return fmt.Sprintf("(and (<= 0 (i_tag %s)) (=> (= (i_tag %s) 0) (= %s nilIface)) (<= 0 (i_ref %s)) (<= (i_ref %s) %s) %s)", v, v, v, v, v, st.alloc, impl)
 	case *types.Struct:
 		si := e.structInfoOf(t)
 		var fs []string
@@ -517,4 +607,22 @@ func (e *Enc) symbolic(prefix string, t types.Type, st *State, reach string) str
 	v := e.freshConst(prefix, e.sortOf(t))
 	e.assume(reach, e.typeFact(v, t, st))
 	return v
+}
+
+// onlyPrefixHavocs: every epoch between ep and the entry epoch came from a coarse (prefix) havoc that the
+// unit's own modcomps clause covers.
+func (e *Enc) onlyPrefixHavocs(ep int) bool {
+	for ep != 0 {
+		info, ok := e.epochs[ep]
+		if !ok || info.prefixes == nil {
+			return false
+		}
+		for _, p := range info.prefixes {
+			if !matchPrefix(p, e.unit.ModComps) {
+				return false
+			}
+		}
+		ep = info.parent
+	}
+	return true
 }
